@@ -52,6 +52,8 @@ FOREIGN = {
         (("rules.C03", "dosmode_rules", "facts"), "permission bits derived from DOS attributes"),
     ],
     "C08": [
+        (("rules.C10", "drain_rules", "facts"), "a streamed ZIP64 entry is bounded by its 64-bit size: the limit is taken after the local ZIP64 record was decoded"),
+        (("rules.C01", "patchoff_rules", "ctx"), "the local ZIP64 record is written and back-patched in the order (uncompressed, compressed) at the offsets of the table"),
         (OPENERS, "the large_file request reaches the entry through every opener"),
         (ENTRYF, "... and is recorded as given"),
         (("rules.C02", "narrow_rules", "ctx"), "no value is truncated into a 16/32-bit field"),
@@ -62,6 +64,7 @@ FOREIGN = {
         (("rules.C04", "table_rules", "facts"), "contents are CRC-checked the same way"),
     ],
     "C13": [
+        (("rules.C01", "mode_rules", "ctx"), "re-emitted entries keep their external attributes: the shift is applied where the attribute word is built, not where it is written"),
         (WREF, "appending entries is refused only where it was"),
         (RREF, "an existing archive that opens for reading opens for append"),
         (ENTRYF, "the appended entries are recorded as asked for"),
@@ -74,6 +77,7 @@ FOREIGN = {
         (("rules.C02", "flag_rules", "ctx"), "re-emitted names keep the flag that matches their bytes"),
     ],
     "C14": [
+        (("rules.C03", "central_rules", "ctx"), "the raw window handed to the copy is the entry's whole compressed stream (central size), for empty entries too"),
         (WREF, "any entry that can be opened raw can be copied: the copy path adds no refusal (method, timestamp, size ...)"),
         (ENTRYF, "the copy's record holds the options raw_copy derived from the source (start_entry is shared)"),
         (("rules.C03", "fieldwriters_rules", "facts"), "the source's accessors report the recorded values"),
@@ -85,6 +89,8 @@ FOREIGN = {
         (ENTRYF, "the encrypted flag is set exactly when keys were given"),
     ],
     "C17": [
+        (TS, "bytes written in extra-data mode never reach the entry's CRC/size accounting, for every call sequence"),
+        (("rules.shared_count", "count_rule", "facts"), "the writer accounts exactly the file-data bytes the sink accepted"),
         (WREF, "aligned / extra-data entries are refused exactly where the reviewed validation refuses them"),
         (OPENERS, "start_file_aligned / start_file_with_extra_data open the entry that was asked for"),
     ],
@@ -94,7 +100,17 @@ FOREIGN = {
         (("rules.C13", "raw_rules", "facts"), "append re-writes parsed entries untouched"),
     ],
     "C16": [
+        (("rules.C15", "open_rules", "facts"), "no password => the password-required error for every encrypted entry, AES included"),
         (RREF, "the right password is refused nowhere new; tampering is refused everywhere it was"),
+    ],
+    "C09": [
+        (("rules.C04", "table_rules", "facts"), "a short read is not the end of data: the checksum verdict is tied to Ok(0) of the inner reader only"),
+    ],
+    "C12": [
+        (("rules.shared_count", "count_rule", "facts"), "a partially accepted write is accounted as exactly the accepted bytes: retrying the rest is legal use"),
+    ],
+    "C19": [
+        (("rules.shared_count", "exact_rule", "facts"), "name and comment bytes are read with exact-length primitives (a bare read() truncates them on a short read)"),
     ],
     "C20": [
         (("rules.C03", "central_rules", "ctx"), "opening an entry records its data start itself, on every path: what a handle reports never depends on what a clone did before"),
